@@ -108,6 +108,10 @@ def registry_witnesses(name, mod, rng, k):
     if not base:
         return []
     picks = rng.sample(entries, min(len(entries), k * 6))
+    # sibling pairs under one parent: lookups that share a prefix but end in different sub-entries
+    parents = [e for e in entries if len(e.children) >= 2]
+    for par in rng.sample(parents, min(len(parents), max(2, k // 2))):
+        picks = rng.sample(par.children, 2) + picks
     for e in picks:
         prefix = ''
         p = e.parent
@@ -209,6 +213,11 @@ def check_number(name, mod, getters, v, x, viols, cells, clock=None):
         val = o[1]
         if gname == 'get_gender' and val not in ('M', 'F') and not (val is None and name in ('be.bis', 'be.ssn', 'be.nn')):
             add(viols, 'C12|%s.get_gender|not-M-or-F' % name, '%s.get_gender(%r) = %r' % (name, x, val), dict(w, getter=gname))
+        if name == 'mac' and gname == 'get_oui' and isinstance(val, str):
+            hexs = ''.join(c for c in v if c.isalnum()).upper()
+            iab = C.outcome(getters['get_iab'], x) if 'get_iab' in getters else ('ok', hexs[len(val):])
+            if not hexs.startswith(val) or (iab[0] == 'ok' and val + str(iab[1]) != hexs):
+                add(viols, 'C12|mac|oui-and-iab-do-not-make-up-the-address', 'mac.get_oui(%r) = %r, get_iab = %r, address %r' % (x, val, iab[1:2], hexs), dict(w, getter=gname))
         if gname == 'split':
             parts = list(val) if isinstance(val, (list, tuple)) else None
             if parts is None or not all(isinstance(p, str) for p in parts) or ''.join(parts) != v:
